@@ -106,11 +106,6 @@ func Canon(v any) string {
 	return c
 }
 
-// Step is one element of a JSON path: an object member or (Index) a map key.
-type Step struct {
-	Name string
-}
-
 type JPath []string
 
 func (p JPath) String() string { return strings.Join(p, ".") }
